@@ -5,7 +5,7 @@ Definition oeqb (a : option (list N)) (v : list N) : bool := match a with Some x
 (* the last value an argument list gives to variable V *)
 Definition arg_sets (V : list N) (arg : list N) : option (list N) :=
   match split_once arg [61] with
-  | Some (p, v) => if oeqb (flag_var p) V then Some v else None
+  | Some (p, v) => if oeqb (flag_var p) V && negb (existsb (N.eqb 0) v) then Some v else None     (* a value with a NUL character is skipped *)
   | None => None end.
 Definition cli_last (V : list N) (args : list (list N)) : option (list N) :=
   fold_left (fun acc a => match arg_sets V a with Some v => Some v | None => acc end) args None.
@@ -14,6 +14,7 @@ Lemma apply_arg_get V a e : env_get V (apply_arg e a) = match arg_sets V a with 
 Proof.
   unfold apply_arg, arg_sets. destruct (split_once a [61]) as [[p v]|]; [|reflexivity].
   destruct (flag_var p) as [W|] eqn:F; cbn [oeqb]; [|reflexivity].
+  destruct (existsb (N.eqb 0) v) eqn:Z; [rewrite andb_false_r; reflexivity|]. rewrite andb_true_r.
   destruct (beqs W V) eqn:E.
   - apply beqs_eq in E. subst W. apply env_get_set_same.
   - apply env_get_set_other. destruct (beqs V W) eqn:E2; [apply beqs_eq in E2; subst; rewrite beqs_refl in E; discriminate|reflexivity].
